@@ -64,7 +64,7 @@ def classify(pid: str, clause: str, s: dict, l: int) -> str:
     else:
         site = f"{ev['op']}({kind(ev['a'])})"
     extra = (":" + ev["exc"]) if ev["exc"] else ""
-    if clause in ("and_table", "or_table", "evaluate_vs_reference", "reparse_table") and _only_inlist_substring_envs(s, l, clause):
+    if (clause in ("and_table", "or_table", "evaluate_vs_reference", "reparse_table") or ev["op"] == "law") and _only_inlist_substring_envs(s, l, clause):
         # evaluate() reads `python_version in "..."` as substring containment (PEP 508), the algebra
         # reads the literal as a set of release series: DESIGN section 6 item 12
         return f"{pid}:in-list:env-substring-of-list-not-element"
@@ -80,7 +80,9 @@ def _only_inlist_substring_envs(s: dict, l: int, clause: str) -> bool:
     import re
     ev = s["events"][l - 1]
     tab = ev["table"]
-    if clause == "evaluate_vs_reference":
+    if ev["op"] == "law":
+        tab, exp = s["events"][ev["a"] - 1]["table"], s["events"][ev["b"] - 1]["table"]
+    elif clause == "evaluate_vs_reference":
         exp = ev["ref"]
     elif clause == "reparse_table":
         exp = s["events"][ev["a"] - 1]["table"]
@@ -189,7 +191,8 @@ def marker_sessions(rep: Report, pids: tuple, n_random: int, n_law: int, selfche
             ops = [e["text"] if e["op"] == "parse" else e["op"] for e in s["events"][:l]]
             rep.violation(classify(p, clause, s, l),
                           f"session {sid} event {l}: {ev['op']} a={_txt(s, ev['a'])!r} b={_txt(s, ev['b'])!r} names={ev['names']} -> {ev['str']!r} fails {clause}",
-                          {"kind": "marker-session", "seed": s["seed"], "law": any(e["op"] == "law" for e in s["events"]), "event": l, "clause": clause,
+                          {"kind": "marker-session", "seed": s["seed"], "law": any(e["op"] == "law" for e in s["events"]),
+                           "session_kind": ("interchange" if any(e.get("law", "").startswith("interchange") for e in s["events"]) else "law" if any(e["op"] == "law" for e in s["events"]) else "random"), "event": l, "clause": clause,
                            "script": ops, "result": ev["str"], "grid_complete": s["grid_complete"]})
     nev = sum(len(s["events"]) for s in sessions)
     rep.add("states", states)
@@ -233,7 +236,7 @@ def run(pid: str, tier: str, replay: str | None = None) -> int:
     thorough = tier == "thorough"
     if replay:
         return _replay(rep, replay)
-    marker_sessions(rep, (pid,), n_random=(6000 if thorough else 500), n_law=(1500 if thorough else 100))
+    marker_sessions(rep, (pid,), n_random=(8000 if thorough else 900), n_law=(3000 if thorough else 400))
     rep.set(rule="random marker sessions (2-3 parsed markers of depth <= 2 over 2-3 variables, then &, |, reparse, only, exclude, "
                  "without_extras on earlier results); truth tables from the real evaluate() on the region grid of the session's literals; "
                  "every event validated by TLC against MarkerSessionTrace")
@@ -245,7 +248,8 @@ def run(pid: str, tier: str, replay: str | None = None) -> int:
 def _replay(rep: Report, path: str) -> int:
     doc = json.load(open(path))
     vec = doc["vector"]
-    s = drive_marker.law_session(1, vec["seed"]) if vec.get("law") else drive_marker.random_session(1, vec["seed"])
+    kind = vec.get("session_kind") or ("law" if vec.get("law") else "random")
+    s = {"law": drive_marker.law_session, "interchange": drive_marker.interchange_session, "random": drive_marker.random_session}[kind](1, vec["seed"])
     s["sid"] = 1
     tmp = tempfile.mkdtemp(prefix="verif_ms_")
     try:
